@@ -86,6 +86,8 @@ fn selection(ctx: &mut Ctx, tape: &[u8]) -> CaseResult {
     let dup = t.chance(70);
     let key_deposit = [0u64, 2_000_000][t.choose(2)];
     let with_cert = t.chance(50);
+    // a withdrawal is an implicit input: with it the lovelace can be covered before any input is selected
+    let wd_mode = if dup { 1 + t.choose(4) } else { 0 };
 
     let cfg = TransactionBuilderConfigBuilder::new()
         .fee_algo(&LinearFee::new(&bn(fee_a), &bn(fee_b)))
@@ -124,6 +126,19 @@ fn selection(ctx: &mut Ctx, tape: &[u8]) -> CaseResult {
         let mut certs = Certificates::new();
         certs.add(&Certificate::new_stake_registration(&StakeRegistration::new(&Credential::from_keyhash(&Ed25519KeyHash::from_bytes(pool_bytes(9, 28, 53)).unwrap()))));
         let _ = tb.set_certs(&certs);
+    }
+    let total_out_early: u64 = out_specs.iter().map(|o| o.0).sum();
+    let withdrawal: u64 = match wd_mode {
+        0 => 0,
+        1 => total_out_early.saturating_mul(2).saturating_add(5_000_000),
+        2 => total_out_early / 2 + 1,
+        3 => 1,
+        _ => total_out_early.saturating_add(200_000),
+    };
+    if withdrawal > 0 {
+        let mut w = Withdrawals::new();
+        w.insert(&RewardAddress::new(1, &Credential::from_keyhash(&Ed25519KeyHash::from_bytes(pool_bytes(8, 28, 53)).unwrap())), &bn(withdrawal));
+        tb.set_withdrawals(&w);
     }
     // UTxO universe
     let mut utxos: BTreeMap<Vec<u8>, Utxo> = BTreeMap::new();
@@ -203,7 +218,7 @@ fn selection(ctx: &mut Ctx, tape: &[u8]) -> CaseResult {
         }
         (coin, m)
     };
-    let implicit = if with_cert { 0u128 } else { 0 };
+    let implicit = withdrawal as u128;
     let deposit = if with_cert { key_deposit as u128 } else { 0 };
     let need_assets: BTreeMap<(Vec<u8>, Vec<u8>), u128> = {
         let mut m = BTreeMap::new();
@@ -231,7 +246,7 @@ fn selection(ctx: &mut Ctx, tape: &[u8]) -> CaseResult {
             out_specs.iter().map(|o| (o.0, o.1.values().cloned().collect::<Vec<_>>())).collect::<Vec<_>>(),
             before.iter().map(|k| utxos.get(k).map(|u| u.coin).unwrap_or(0)).collect::<Vec<_>>(),
             offered_keys.iter().map(|k| (utxos[k].coin, utxos[k].assets.values().cloned().collect::<Vec<_>>())).collect::<Vec<_>>(),
-            if with_cert { format!(" +stake_registration(deposit {})", key_deposit) } else { String::new() },
+            format!("{}{}", if with_cert { format!(" +stake_registration(deposit {})", key_deposit) } else { String::new() }, if withdrawal > 0 { format!(" +withdrawal({})", withdrawal) } else { String::new() }),
             log
         )
     };
